@@ -40,6 +40,41 @@ class Branch(Abstract_item):
         self.children = children
 
 
+@implementation_specific
+class Special(Abstract_item):
+    leaf: Leaf
+    more_leaves: List[Leaf]
+
+    def __init__(self, leaf: Leaf, more_leaves: List[Leaf]) -> None:
+        self.leaf = leaf
+        self.more_leaves = more_leaves
+
+
+class Holder(Abstract_item):
+    first: Leaf
+    special: Special
+    opt_special: Optional[Special]
+    specials: List[Special]
+    opt_items: Optional[List[Abstract_item]]
+    last: Leaf
+
+    def __init__(
+        self,
+        first: Leaf,
+        special: Special,
+        specials: List[Special],
+        last: Leaf,
+        opt_special: Optional[Special] = None,
+        opt_items: Optional[List[Abstract_item]] = None,
+    ) -> None:
+        self.first = first
+        self.special = special
+        self.opt_special = opt_special
+        self.specials = specials
+        self.opt_items = opt_items
+        self.last = last
+
+
 class Something:
     head: Leaf
     items: List[Abstract_item]
@@ -88,12 +123,67 @@ __xml_namespace__ = "https://dummy.com"
 '''
 
 
+# the hand-written class for the implementation-specific ``Special``, structured like the generated classes
+TYPES_SPECIAL = '''\
+class Special(AbstractItem):
+    """Represent something special."""
+
+    leaf: "Leaf"
+
+    more_leaves: List["Leaf"]
+
+    def descend_once(self) -> Iterator[Class]:
+        yield self.leaf
+
+        yield from self.more_leaves
+
+    def descend(self) -> Iterator[Class]:
+        yield self.leaf
+
+        yield from self.leaf.descend()
+
+        for an_item in self.more_leaves:
+            yield an_item
+
+            yield from an_item.descend()
+
+    def accept(self, visitor: "AbstractVisitor") -> None:
+        visitor.visit_special(self)
+
+    def accept_with_context(
+            self,
+            visitor: "AbstractVisitorWithContext[ContextT]",
+            context: ContextT
+    ) -> None:
+        visitor.visit_special_with_context(self, context)
+
+    def transform(
+            self,
+            transformer: "AbstractTransformer[T]"
+    ) -> T:
+        return transformer.transform_special(self)
+
+    def transform_with_context(
+            self,
+            transformer: "AbstractTransformerWithContext[ContextT, T]",
+            context: ContextT
+    ) -> T:
+        return transformer.transform_special_with_context(self, context)
+
+    def __init__(self, leaf: "Leaf", more_leaves: List["Leaf"]) -> None:
+        self.leaf = leaf
+        self.more_leaves = more_leaves
+'''
+
+
 def bounded(seed: int = 0, **_: Any) -> Dict[str, Any]:
     failures: List[Dict[str, Any]] = []
     cases = 0
     with tempfile.TemporaryDirectory() as d:
         root = pathlib.Path(d)
         (root / "snippets").mkdir()
+        (root / "snippets" / "Types").mkdir()
+        (root / "snippets" / "Types" / "Special.py").write_text(TYPES_SPECIAL, encoding="utf-8")
         model_path = root / "meta_model.py"
         model_path.write_text(MODEL, encoding="utf-8")
         spec_impls, errs = specific_implementations.read_from_directory(snippets_dir=root / "snippets")
@@ -148,6 +238,23 @@ def bounded(seed: int = 0, **_: Any) -> Dict[str, Any]:
             except BaseException as e:  # noqa
                 failures.append({"property": "C29", "case": "pass-through visitor",
                                  "observed": f"raised {type(e).__name__}: {e}"})
+            # descend() is the pre-order over descend_once(), also through an implementation-specific class
+            def preorder(x: Any) -> Any:
+                for y in x.descend_once():
+                    yield y
+                    yield from preorder(y)
+
+            def special(tag: str) -> Any:
+                return T.Special(leaf=T.Leaf(tag + "0"), more_leaves=[T.Leaf(tag + "1"), T.Leaf(tag + "2")])
+            holder = T.Holder(first=leaf["a"], special=special("s"), specials=[special("t"), special("u")], last=leaf["b"],
+                              opt_special=special("v"), opt_items=[special("w"), leaf["c"]])
+            for label, inst in (("Something", sth), ("Holder with implementation-specific parts", holder)):
+                cases += 1
+                got_d, want_d = list(inst.descend()), list(preorder(inst))
+                if len(got_d) != len(want_d) or any(x is not y for x, y in zip(got_d, want_d)):
+                    failures.append({"property": "C29", "case": f"descend vs descend_once recursively: {label}",
+                                     "observed": f"descend yields {len(got_d)} instances, the pre-order over descend_once "
+                                                 f"{len(want_d)}: {[getattr(x, 'name', type(x).__name__) for x in got_d]}"})
             # accessors: every Optional[List[...]] property has over_<property>_or_empty -- the items if set, nothing
             # if not; whatever the items are (primitives, classes, enumeration literals, nested lists)
             optional_lists = {"cube": [[[leaf["i"]], []]], "tags": ["x", ""], "counts": [0, 7], "flags": [True, False],
